@@ -15,3 +15,18 @@ contract(f"{B}::NetworkInterface.setup_for_episode", props=["C04"],
          modifies=["self.nmne", "self.traffic", "self.enabled", "self.pcap", "Link.current_load"], allocates=True)
 contract(f"{B}::NetworkInterface.pre_timestep", props=["C04", "C18"],
          ensures=[("traffic_cleared", "len(self.traffic) == 0")], modifies=["self.traffic"], allocates=True)
+
+# ---- episode schedulers: every call hands out a NEW scenario dictionary and keeps nothing from earlier calls ------------------------------
+# (PrimaiteGame.from_config and the node loaders pop entries out of the dictionaries they are given: a scenario object that is
+# shared between two episodes, or with the scheduler itself, would make the later episode depend on the earlier one)
+ES = "src/primaite/session/episode_schedule.py"
+contract(f"{ES}::ConstantEpisodeScheduler.__call__", props=["C04"],
+         ensures=[("fresh_scenario_each_call", "fresh(result)")], modifies=[], allocates=True)
+contract(f"{ES}::EpisodeListScheduler.__call__", props=["C04"],
+         requires=["len(self.schedule) > 0", "forall(k, 0, len(self.schedule), k in self.schedule)",
+                   "forall(k, 0, len(self.schedule), forall(j, 0, len(self.schedule[k]), self.schedule[k][j] in self.episode_data))"],
+         ensures=[("fresh_scenario_each_call", "fresh(result)")],
+         # a scenario text without an `agents` list is rejected with an exception (malformed input, not a property matter)
+         raises={"KeyError": "True", "TypeError": "True"},
+         modifies=["self._exceeded_episode_list"], allocates=True,
+         loops={0: {"inv": [], "modifies": ["flat_agents_list[*]"]}})
